@@ -2,6 +2,7 @@ package acc
 
 import (
 	"strconv"
+	"strings"
 )
 
 func cloneClaims(m map[string]interface{}) map[string]interface{} {
@@ -293,4 +294,68 @@ func WithAud(base Bearer, av AudVariant) Bearer {
 	b.Claims["aud"] = av.Aud
 	b.Label = "audience:" + av.Label
 	return b
+}
+
+// Spelling is one non-canonical way to write a request path.
+type Spelling struct {
+	Label    string
+	Resolves bool // the router (which cleans the path) still resolves it to the canonical operation
+	Tail     bool // it changes the last segment (not usable when that segment is a path value)
+	F        func(p string) string
+}
+
+func lastSlash(p, with string) string {
+	i := strings.LastIndex(p, "/")
+	return p[:i] + with + p[i+1:]
+}
+
+// PathSpellings is the request-path dimension: spellings the router still resolves (double slashes, trailing
+// slash, dot segments, absolute-form target) and near misses that have no route (percent-encoded dots and
+// letters, other case, encoded slash, a trailing "..", a matrix value, an encoded space).
+func PathSpellings() []Spelling {
+	up := func(p string) string { return "/" + strings.ToUpper(p[1:2]) + p[2:] }
+	firstSegUpper := func(p string) string {
+		j := strings.Index(p[1:], "/")
+		if j < 0 {
+			return strings.ToUpper(p)
+		}
+		return strings.ToUpper(p[:j+1]) + p[j+1:]
+	}
+	return []Spelling{
+		{"double-leading-slash", true, false, func(p string) string { return "/" + p }},
+		{"triple-leading-slash", true, false, func(p string) string { return "//" + p }},
+		{"trailing-slash", true, false, func(p string) string { return p + "/" }},
+		{"leading-dot-segment", true, false, func(p string) string { return "/." + p }},
+		{"leading-dotdot", true, false, func(p string) string { return "/x/.." + p }},
+		{"inner-double-slash", true, false, func(p string) string { return lastSlash(p, "//") }},
+		{"inner-dot-segment", true, false, func(p string) string { return lastSlash(p, "/./") }},
+		{"inner-dotdot", true, false, func(p string) string { return lastSlash(p, "/x/../") }},
+		{"trailing-dot-segment", true, false, func(p string) string { return p + "/." }},
+		{"trailing-x-dotdot", true, false, func(p string) string { return p + "/x/.." }},
+		{"absolute-form", true, false, func(p string) string { return "http://other.example" + p }},
+		{"encoded-dot-segment", false, false, func(p string) string { return "/%2e" + p }},
+		{"upper-first-letter", false, false, up},
+		{"upper-first-segment", false, false, firstSegUpper},
+		{"encoded-first-letter", false, false, func(p string) string { return "/%" + strings.ToUpper(hexByte(p[1])) + p[2:] }},
+		{"trailing-dotdot", false, false, func(p string) string { return p + "/.." }},
+		{"encoded-trailing-slash", false, true, func(p string) string { return p + "%2F" }},
+		{"matrix-value", false, true, func(p string) string { return p + ";v=1" }},
+		{"encoded-trailing-space", false, true, func(p string) string { return p + "%20" }},
+	}
+}
+
+// Respell rewrites q's target with the spelling; the model is told the canonical route when the router still
+// resolves it and "notfound" otherwise. Canon keeps the endpoint the spelling aims at (for the oracles).
+func Respell(q Req, sp Spelling) Req {
+	path, query := q.Target, ""
+	if i := strings.Index(path, "?"); i >= 0 {
+		path, query = path[:i], path[i:]
+	}
+	q.Canon = q.Route
+	q.Target = sp.F(path) + query
+	if !sp.Resolves {
+		q.Route = "notfound"
+	}
+	q.Label = "spelling:" + sp.Label
+	return q
 }
